@@ -165,6 +165,12 @@ where
     }
 }
 
+/// Verification hooks: read access to the graph a builder has accumulated.
+#[cfg(feature = "verif_hooks")]
+pub(crate) fn verif_builder_graph<F>(builder: &FnGraphBuilder<F>) -> &Dag<F, Edge, FnIdInner> {
+    &builder.graph
+}
+
 /// Verification hooks: crate-visible entry points to the build stages.
 #[cfg(feature = "verif_hooks")]
 pub(crate) fn verif_rank_calc<F>(graph: &Dag<F, Edge, FnIdInner>) -> Vec<crate::Rank> {
